@@ -758,6 +758,13 @@ class Translator:
         if rv.startswith("&"):
             p = re.sub(r"^&(?:mut |raw const |raw mut )?", "", rv)
             return self.place(st, p)
+        ms_ = re.fullmatch(r"([A-Za-z_][\w:]*(?:::<.*>)?) \{ (.*) \}", rv)
+        if ms_ and not rv.startswith("{"):
+            fields = []
+            for part in split_top(ms_.group(2)):
+                nm, op = part.split(": ", 1)
+                fields.append(self.operand(st, op))
+            return Tup(fields)   # struct literal: fields in declaration order
         mc = re.fullmatch(r"\{closure@([^}]+)\} \{ (.*) \}", rv)
         if mc:
             caps = []
